@@ -89,6 +89,13 @@ CONSTRAINTS = {
                 "is_self_signed", "hashes", "version", "serial_number", "signature_algorithm", "issuer",
                 "validity_not_before", "validity_not_after", "subject", "subject_public_key_algorithm",
                 "subject_public_key_modulus", "subject_public_key_exponent", "x509_v3_extensions"])],
+            # 2.1 sections 6.16 / 6.17: "As all properties of this object are optional, at least one of the properties defined
+            # below MUST be included when using this object."
+            "user-account": [("at_least_one", [
+                "user_id", "credential", "account_login", "account_type", "display_name", "is_service_account", "is_privileged",
+                "can_escalate_privs", "is_disabled", "account_created", "account_expires", "credential_last_changed",
+                "account_first_login", "account_last_login", "extensions"])],
+            "windows-registry-key": [("at_least_one", ["key", "values", "modified_time", "creator_user_ref", "number_of_subkeys", "extensions"])],
         },
         "embedded": {
             "ExternalReference": [("at_least_one", ["description", "url", "external_id"])],
